@@ -331,6 +331,28 @@ class EscapeAnalysis:
             if m is not None:
                 callee, callee_cls = m, ltypes[call.func.value.id]
         if callee is None:
+            # a repository function handed to an external / unresolved callable as a CALLBACK together with client data
+            # (`pattern.sub(_replace, text)`, `map(f, items)`, `sorted(xs, key=f)`): it will be called with (something derived from) that
+            # data - its escapes are escapes of this call, every parameter carrying the union of the other arguments' taint
+            cbs = []
+            others: Origins = EMPTY
+            for a in list(call.args) + [k.value for k in call.keywords]:
+                cb = None
+                if isinstance(a, ast.Name) and a.id not in fn.params:
+                    try:
+                        cb = self.p.module(fn.module.name).functions.get(a.id)
+                    except Exception:
+                        cb = None
+                if cb is not None and cb.params:
+                    cbs.append(cb)
+                else:
+                    others = others | self.ta.expr(fn, a, env, self_cls)
+            if isinstance(call.func, ast.Attribute):
+                others = others | self.ta.expr(fn, call.func.value, env, self_cls)
+            if cbs and others and depth < 6:
+                for cb in cbs:
+                    self.call_sites += 1
+                    propagate(call, self.escapes(cb, None, {nm: others for nm in cb.params}, depth + 1))
             # dynamic dispatch on an abstract repository method (e.g. Convertor.to_python): follow every override
             if isinstance(call.func, ast.Attribute):
                 for impl, icls in self._abstract_impls(call.func.attr):
